@@ -442,6 +442,7 @@ def opXml (j : Json) : Except String Json := do
       | "unit" => do return Ztr.Xml.TestObj.unit (← strAt 1) (← strAt 2) (← strAt 3)
       | "sub" => do return Ztr.Xml.TestObj.sub (← strAt 1) (← strAt 2) (← strAt 3) (← strAt 4)
       | "startup" => do return Ztr.Xml.TestObj.startup (← strAt 1)
+      | "doctest" => do return Ztr.Xml.TestObj.doctest (← strAt 1)
       | _ => throw s!"bad obj {tag}" : Except String Ztr.Xml.TestObj)
     let kindS ← J.str! x "kind"
     let kind ← (match kindS with
